@@ -82,3 +82,22 @@ Print Assumptions C11_process_line_from_source.
 Theorem C11_entry_from_source : forall pid msg, entry_args gen_entry (pid, msg) = Some (pid, msg).
 Proof. exact entry_from_source. Qed.
 Print Assumptions C11_entry_from_source.
+
+Theorem C11_entry_context_is_callers : en_lookup "ctx" (en_config gen_entry) = Some FromCtxParam.
+Proof. exact entry_context_is_callers. Qed.
+Print Assumptions C11_entry_context_is_callers.
+
+(* the body of ProcessSshdLogEntry is ONE call of ProcessEntry on a fresh per-line configuration whose result is
+   returned: no guard / early return, loop, defer, derived context or write to the long-lived processor (the generator
+   has no form for them: the generated file would not type-check) *)
+Theorem C11_entry_single_call :
+  en_callee gen_entry = "ProcessEntry" /\ en_result_returned gen_entry = true /\
+  map fst (en_config gen_entry) = ["ctx"; "logins"; "logEntry"; "nodeName"; "machineID"; "when"; "pid"; "eventW"; "metrics"] /\
+  en_lookup "when" (en_config gen_entry) = Some FromTimeNow.
+Proof. exact entry_single_call. Qed.
+Print Assumptions C11_entry_single_call.
+
+Theorem C11_parse_from_source : forall e,
+  option_map entry_pair (gen_parse_syslog_message e) = Some (Syslog.parse e).
+Proof. exact parse_syslog_from_source_pair. Qed.
+Print Assumptions C11_parse_from_source.
